@@ -31,7 +31,15 @@ for pid in ALL:
         'engine': 'fbverif',
         'level_claimed': {
             'category': cfg['level'],
-            'text': cfg.get('level_text') or cfg['rule'],
+            'text': cfg.get('level_text') or (
+                ('Runtime monitoring with bounded %s: the property held on every execution explored in the run '
+                 '(counts and samples in the evidence file); nothing is claimed beyond them. ' % (
+                     'enumeration of fault / crash points on generated runs' if cfg['level'] == 'fault_enumeration'
+                     else 'exploration of generated programs, histories, inputs and schedules')) +
+                ('This is the level at which the quantifiers of the property (programs x histories x '
+                 'faults/schedules) are actually exercised against the real code; the oracle is an independent '
+                 'reference model of the documented semantics, so expected values exist for inputs nobody wrote '
+                 'down. What is explored: ' + cfg['rule'])),
             'design_ref': cfg.get('design_ref', 'DESIGN.md section 3 (%s)' % pid),
         },
         'level_note': cfg.get('level_note') or (
